@@ -361,7 +361,8 @@ PropMsg(e, out, h0, cap) ==
       o1 == IF void0 THEN obs[k]
             ELSE IF obs[k].dmac # NoMac /\ (obs[k].dmac # e.m \/ obs[k].dcap # cap)      \* the server re-creates the lease
             THEN [o0 EXCEPT !.last = NoA, !.dur = NoA, !.dmac = NoMac, !.lx = FALSE] ELSE o0
-      o1b == IF e.kind = "request" /\ e.sid = "other" THEN [o1 EXCEPT !.dur = NoA, !.dmac = NoMac] ELSE o1
+      \* (dmac / dcap stay: they also identify the lease behind `last`)
+      o1b == IF e.kind = "request" /\ e.sid = "other" /\ ~void0 THEN [o1 EXCEPT !.dur = NoA] ELSE o1
       o2 == IF tous THEN [o1b EXCEPT !.void = TRUE, !.last = IF e.kind = "decline" /\ e.reff = @ THEN NoA ELSE @,
                                      !.dur = IF e.kind = "decline" /\ e.reff = @ THEN NoA ELSE @] ELSE o1b
       O2 == [obs EXCEPT ![k] = o2]
